@@ -17,3 +17,6 @@ pub proof fn axiom_arc_vec16_ext(a: std::sync::Arc<Vec<u16>>, b: std::sync::Arc<
 pub proof fn axiom_vec16_len_limit(v: &Vec<u16>)
     ensures 2 * v@.len() <= isize::MAX,
 { admit(); }
+// <Arc<T> as AsRef<T>>::as_ref: a reference to the shared value
+pub assume_specification<T: std::marker::MetaSized + ?Sized, A: std::alloc::Allocator> [<std::sync::Arc<T, A> as AsRef<T>>::as_ref] (a: &std::sync::Arc<T, A>) -> (r: &T)
+    ensures r == &**a;
